@@ -453,7 +453,28 @@ def text_len(e, env):
     if e.get('k') == 'MCall' and e['n'] == 'repeat' and T.peel(e['r']).get('k') == 'Lit' and len((T.peel(e['r']).get('v') or {}).get('str', '')) == 1:
         return lin(e['a'][0], env)
     if e.get('k') == 'Local':
+        if e['n'] == 'spaces':
+            return lin({'k': 'Local', 'n': 'spaces_len'}, env)     # `let spaces_len = spaces.len()` at the head of the function
         return {e['n'] + '.len()': 1}
+    if e.get('k') == 'Index' and T.peel(e['i']).get('k') == 'Struct':
+        # a slice of an ASCII-space string: its length in characters is the length of the range
+        base = text_len(e['x'], env)
+        rng = T.peel(e['i'])
+        flds = {f_['n']: f_['x'] for f_ in rng.get('f', [])}
+        kind = (rng.get('d') or '').split('::')[-1]
+        if base is None:
+            return None
+        if kind == 'RangeFrom' and 'start' in flds:
+            a = lin(flds['start'], env)
+            return None if a is None else add(base, a, -1)
+        if kind == 'RangeTo' and 'end' in flds:
+            return lin(flds['end'], env)
+        if kind == 'Range' and 'start' in flds and 'end' in flds:
+            a, b = lin(flds['start'], env), lin(flds['end'], env)
+            return None if a is None or b is None else add(b, a, -1)
+        if kind == 'RangeFull':
+            return base
+        return None
     return None
 
 
